@@ -23,7 +23,7 @@ def leaf_label(why: str) -> str:
     # what raises, not where: the enclosing function's name changes under behaviour-preserving refactoring
     last = re.sub(r" at [A-Za-z_][\w.<>]*$", "", last.strip())
     last = re.sub(r"^(unpacking|subscript) .*", r"\1 of a list whose length the grammar does not guarantee", last)
-    last = re.sub(r"^\S+\[(-?\d+)\] but it can have .*", r"index \1 of a list whose length the grammar does not guarantee", last)
+    last = re.sub(r"^.*\[(-?\d+)\] but it can have .*", r"index \1 of a list whose length the grammar does not guarantee", last)
     return last.strip()[:120]
 
 
